@@ -206,6 +206,8 @@ class C11(Prop):
         for (y, m, d) in ((2026, 12, 31), (2026, 6, 15)):
             for z in zones:                     # one date, zone after zone, in one process
                 out.append({"zone": z, "date": [y, m, d], "now_hh": 12, "seed": 5 * ctx.rng.randrange(1 << 20)})
+            for z in zones:                     # ... and with few clock strings, so that nothing remembered is pushed out
+                out.append({"zone": z, "date": [y, m, d], "now_hh": 12, "seed": 5 * ctx.rng.randrange(1 << 20), "few": True})
         return out
 
     def execute(self, scn):
@@ -222,6 +224,8 @@ class C11(Prop):
         evs = []
         with host_zone(z), frozen(float(now - now % 60) + [0.25, 59.75, 29.5, 59.5, 0.0][scn["seed"] % 5]):
             texts = [f"{mn // 60:02d}:{mn % 60:02d}" for mn in range(1440)] + MALFORMED + LENIENT
+            if scn.get("few"):
+                texts = [f"{mn // 60:02d}:{mn % 60:02d}" for mn in range(0, 1440, 37)] + ["23:59", "9:30"]
             seen = []
             for t in texts:
                 e = {"ev": "Clock", "zone": rules, "now": now, "text": text(t), "raised": False, "out": [], "back": []}
